@@ -364,7 +364,7 @@ def run_history(seed):
                 if h.is_up is False and not exhausted:
                     viol.append(('host-not-up-at-final-quiescence', "host %s has is_up=%r although its node has been healthy for 37 virtual seconds" % (a, h.is_up),
                                  {'live_handlers': len(live.get(id(h), ())), 'handling_node_up_flag': h._currently_handling_node_up, 'sessions': n_sessions,
-                                  'never_a_handler': last_handler_addition(id(h)) is None,
+                                  'never_a_handler': last_handler_addition(id(h)) is None, 'last_handler_was_for_host_addition': last_handler_addition(id(h)),
                                   'listeners_ever_told_add_or_up': any(n[1] == 'listener' and n[4] == id(h) and n[2] in ('add', 'up') for n in notes),
                                   'reconnection_handler_set': h._reconnection_handler is not None}))
                 # what the observers were last told about this host object
@@ -382,7 +382,8 @@ def run_history(seed):
                     if h.is_up is False and told_up and not exhausted:
                         viol.append(('observer-not-told-down', "%s was last told %r about host %s but the host is marked down at the final quiescence" % (who, last[-1][2], a),
                                      {'who': who, 'handling_node_up_flag': h._currently_handling_node_up, 'live_handlers': len(live.get(id(h), ())), 'sessions': n_sessions,
-                                      'last': last[-1][2], 'never_a_handler': last_handler_addition(id(h)) is None, 'reconnection_handler_set': h._reconnection_handler is not None,
+                                      'last': last[-1][2], 'never_a_handler': last_handler_addition(id(h)) is None,
+                                      'last_handler_was_for_host_addition': last_handler_addition(id(h)), 'reconnection_handler_set': h._reconnection_handler is not None,
                                       'listeners_ever_told_add_or_up': any(n[1] == 'listener' and n[4] == id(h) and n[2] in ('add', 'up') for n in notes)}))
                 if h.is_up:
                     for si, s in enumerate(sessions):
@@ -415,20 +416,20 @@ def run_history(seed):
                                                                    for c in env.net.conns)}))
                     state = k
                     prev = n
-        # removed hosts are never reconnected: no reconnector connection to the address between on_remove and the next on_add of that address
-        lnotes = [n for n in notes if n[1] == 'listener']
-        for i, n in enumerate(lnotes):
-            if n[2] != 'remove':
-                continue
+        # removed hosts are never reconnected: after listeners were told on_remove(host), no attempt is scheduled any more by a handler of that host object
+        # (by object, not by address: the address may be added again as a new Host while the removal is still being announced)
+        for n in [x for x in notes if x[1] == 'listener' and x[2] == 'remove']:
             counters['removals_observed'] += 1
-            t_rm, a = n[0], n[3]
-            # the host object is a member again from Cluster.on_add on; the policy is told at its start, listeners only once a pool exists
-            t_next = min([m[0] for m in notes[notes.index(n) + 1:] if m[2] == 'add' and m[3] == a] or [float('inf')])
-            for c in env.net.conns:
-                if c.sim_creator == 'reconnector' and str(c.endpoint.address) == a and t_rm + 1e-3 < c.sim_created_at < t_next - 1e-3:
-                    viol.append(('removed-host-reconnected', "a reconnection attempt to removed host %s was made at t=%.2f (removed at t=%.2f, not re-added before)" % (
-                        a, c.sim_created_at, t_rm), {'handler_started_after_removal': handler_started_after_removal(n[4])}))
-                    break
+            idx = removed_at_log_index.get(n[4])
+            if idx is None:
+                continue
+            later = [x for x in sched_log()[idx:] if isinstance(getattr(x[1], '__self__', None), _HostReconnectionHandler) and id(x[1].__self__.host) == n[4]]
+            # (a run scheduled by an old handler in the instant between the announcement and on_remove's cancel() is a no-op: the handler is cancelled)
+            started_after = handler_started_after_removal(n[4])
+            later = [x for x in later if not x[1].__self__._cancelled] if not started_after else later
+            if later:
+                viol.append(('removed-host-reconnected', "a reconnection attempt for removed host %s was scheduled for t=%.2f after listeners had been told on_remove at t=%.2f" % (
+                    n[3], later[0][0], n[0]), {'handler_started_after_removal': handler_started_after_removal(n[4])}))
         info['notes'] = [(round(n[0], 2),) + n[1:4] for n in notes][-40:]
         trace = tuple(x[:2] for x in w.trace)
         cluster.shutdown()
@@ -461,6 +462,10 @@ def classify(v, info):
     if mech in ('host-not-up-at-final-quiescence', 'observer-not-told-down') and d.get('never_a_handler') and not d.get('listeners_ever_told_add_or_up') \
             and not d.get('reconnection_handler_set') and d.get('who', 'policy') == 'policy' and d.get('last', 'add') == 'add':
         return K_UNKNOWN_DOWN
+    if mech in ('host-not-up-at-final-quiescence', 'observer-not-told-down') and d.get('last_handler_was_for_host_addition') and d.get('sessions', 0) >= 2 \
+            and not d.get('listeners_ever_told_add_or_up') and not d.get('reconnection_handler_set') and d.get('live_handlers') == 0 \
+            and d.get('who', 'policy') == 'policy' and d.get('last', 'add') == 'add':
+        return K_ADD_PARTIAL
     if mech in ('removed-host-still-has-reconnector', 'removed-host-reconnected') and d.get('handler_started_after_removal'):
         return K_REMOVED_RESTART
     if mech == 'duplicate-on-up' and d.get('previous') == 'up' and not d.get('same_instant') and (d.get('live_reconnector_seen_while_host_up_before') or d.get('reconnection_attempt_while_told_up')):
